@@ -71,6 +71,13 @@ def menu(tier):
             scn.append(S.mk(f'asserts8/{strat}/j{j}/erase/sched2',
                             'asserts8', ('count', 'assert', 3), strat, j,
                             S.MUTATOR_SETS['erase'], budget=b2 - 1))
+    # ddmin's parallel path with successes in it
+    for inp, models in S.MODELS_DDMIN.items():
+        mname, model = models[-1]
+        for strat in ('ddmin', 'hybrid'):
+            ms = 'core' if inp == 'consts2' else 'erase'
+            scn.append(S.mk(f'{inp}/{mname}/{strat}/j2/{ms}/par', inp, model,
+                            strat, 2, S.MUTATOR_SETS[ms], budget=1))
     for x in scn:
         if x.get('budget', 0) > 0:
             x['prune'] = True
